@@ -21,12 +21,14 @@ def table(rng, maxrows=12):
     return rows
 
 
-def render(rng, rows, header, narrative, crlf=False):
+def render(rng, rows, header, narrative, crlf=False, long_narrative=0):
     lines = []
     if header:
         if narrative:
             lines += ['This file maps each file available in the Debian system to', 'the package from which it originates.',
                       '', 'some FILE  here', 'LOCATION'][:rng.randint(0, 5)]
+            # a narrative of any length: the table starts after the FILE LOCATION row wherever that row is
+            lines += ['narrative line %d of the header' % i for i in range(long_narrative)]
         lines.append('FILE' + ' ' * rng.randint(1, 40) + 'LOCATION')
     for path, pk in rows:
         lines.append(path + ' ' * rng.randint(1, 40) + ','.join(q + n for q, n in pk))
@@ -79,8 +81,11 @@ def run(ctx):
         header = rng.random() < .5
         narrative = header and rng.random() < .6
         crlf = rng.random() < .1
-        text = render(rng, rows, header, narrative, crlf)
-        hist[len(rows)] = hist.get(len(rows), 0) + 1
+        long_narrative = rng.choice([31, 98, 99, 100, 101, 127, 128, 250, 255, 256, 1000, 4096, 5000]) if narrative and rng.random() < .08 else 0
+        if i % 400 == 399:
+            rows = table(rng, maxrows=6000)     # a table beyond every usual buffer size
+        text = render(rng, rows, header, narrative, crlf, long_narrative)
+        hist[min(len(rows), 13)] = hist.get(min(len(rows), 13), 0) + 1
         pp, pg = files.write(text, False), files.write(text, True)
         try:
             rp = call(lambda: to_lists(contents.parse_contents(pp, has_header=header)))
@@ -97,9 +102,9 @@ def run(ctx):
         want = [[[k, v] for k, v in bp.items()], [[k, v] for k, v in bk.items()]]
         why = None
         if rp != want:
-            why = 'parse_contents gives %r, the table is %r' % (rp, want)
+            why = 'parse_contents gives %s, the table is %s' % (repr(rp)[:2000], repr(want)[:2000])
         elif rg != rp:
-            why = 'gzip and plain differ: %r vs %r' % (rg, rp)
+            why = 'gzip and plain differ: %s vs %s' % (repr(rg)[:2000], repr(rp)[:2000])
         elif not isinstance(wrong, Exn) and (header or any(p == 'FILE' for p, _ in rows) is False) and header:
             why = 'a header that is present but not declared is accepted'
         elif not header and not isinstance(wrong, Exn):
